@@ -82,7 +82,7 @@ def check_case(case, common, out):
     except Exception as ex:
         out["notes"][f"refused at construction: {case[3]}"] = f"{type(ex).__name__}: {str(ex)[:80]}"
         return
-    if not hasattr(q, "expr"):
+    if not hasattr(q, "expr") or prog.undefined:
         return
     replay = {"kind": "call", "module": "vf.props.C14", "func": "replay_case", "args": {"case": list(case)}}
     D.clear_cache()
